@@ -358,6 +358,21 @@ class Source:
         return TypeItem(self.rel, kind, name, start, end, vis, self.text[start:end],
                         self.line_of(start), attrs)
 
+    def top_level_consts(self):
+        """names of all `const NAME` items at the top level of the file"""
+        names = []
+        i, hi = 0, len(self.toks)
+        while i < hi:
+            t = self.toks[i]
+            if t.kind == 'punct' and t.text == '{':
+                i = self.pair[i] + 1
+                continue
+            if t.kind == 'ident' and t.text == 'const' and i + 2 < hi and self.toks[i + 1].kind == 'ident' \
+                    and self.toks[i + 2].text == ':':
+                names.append(self.toks[i + 1].text)
+            i += 1
+        return names
+
     # ---- helpers on a body -----------------------------------------------------------------
     def loops_in(self, lo_off, hi_off):
         """offsets (kw_offset, keyword, brace_offset, in_offset_or_None) of every
